@@ -8,6 +8,7 @@ package align
 
 //@ theorem C09.proteinTotal.BLOSUM45
 //@   props C09
+//@   requires imul(len(a) + 1, len(b) + 1) <= 4611686018427387904
 //@   requires forall p int :: 0 <= p && p < len(a) ==> isProt(a[p])
 //@   requires forall q int :: 0 <= q && q < len(b) ==> isProt(b[q])
 // Aligning two protein sequences with BLOSUM45 never panics (every pair needed,
@@ -19,6 +20,7 @@ func thmProteinTotalBLOSUM45(a, b []byte) {
 
 //@ theorem C09.proteinTotal.BLOSUM62
 //@   props C09
+//@   requires imul(len(a) + 1, len(b) + 1) <= 4611686018427387904
 //@   requires forall p int :: 0 <= p && p < len(a) ==> isProt(a[p])
 //@   requires forall q int :: 0 <= q && q < len(b) ==> isProt(b[q])
 // Aligning two protein sequences with BLOSUM62 never panics (every pair needed,
@@ -30,6 +32,7 @@ func thmProteinTotalBLOSUM62(a, b []byte) {
 
 //@ theorem C09.proteinTotal.BLOSUM80
 //@   props C09
+//@   requires imul(len(a) + 1, len(b) + 1) <= 4611686018427387904
 //@   requires forall p int :: 0 <= p && p < len(a) ==> isProt(a[p])
 //@   requires forall q int :: 0 <= q && q < len(b) ==> isProt(b[q])
 // Aligning two protein sequences with BLOSUM80 never panics (every pair needed,
@@ -41,6 +44,7 @@ func thmProteinTotalBLOSUM80(a, b []byte) {
 
 //@ theorem C09.proteinTotal.PAM120
 //@   props C09
+//@   requires imul(len(a) + 1, len(b) + 1) <= 4611686018427387904
 //@   requires forall p int :: 0 <= p && p < len(a) ==> isProt(a[p])
 //@   requires forall q int :: 0 <= q && q < len(b) ==> isProt(b[q])
 // Aligning two protein sequences with PAM120 never panics (every pair needed,
@@ -52,6 +56,7 @@ func thmProteinTotalPAM120(a, b []byte) {
 
 //@ theorem C09.proteinTotal.PAM160
 //@   props C09
+//@   requires imul(len(a) + 1, len(b) + 1) <= 4611686018427387904
 //@   requires forall p int :: 0 <= p && p < len(a) ==> isProt(a[p])
 //@   requires forall q int :: 0 <= q && q < len(b) ==> isProt(b[q])
 // Aligning two protein sequences with PAM160 never panics (every pair needed,
@@ -63,6 +68,7 @@ func thmProteinTotalPAM160(a, b []byte) {
 
 //@ theorem C09.proteinTotal.PAM250
 //@   props C09
+//@   requires imul(len(a) + 1, len(b) + 1) <= 4611686018427387904
 //@   requires forall p int :: 0 <= p && p < len(a) ==> isProt(a[p])
 //@   requires forall q int :: 0 <= q && q < len(b) ==> isProt(b[q])
 // Aligning two protein sequences with PAM250 never panics (every pair needed,
@@ -74,6 +80,7 @@ func thmProteinTotalPAM250(a, b []byte) {
 
 //@ theorem C09.levenshteinTotal
 //@   props C09
+//@   requires imul(len(a) + 1, len(b) + 1) <= 4611686018427387904
 //@   requires forall p int :: 0 <= p && p < len(a) ==> a[p] != 255
 //@   requires forall q int :: 0 <= q && q < len(b) ==> b[q] != 255
 // Levenshtein is defined on every pair of bytes; gap scores are -1 and the gap-open score is 0.
